@@ -4,7 +4,7 @@
    PAccept/PReject, Advance on it, `glog` the same list on the Spec side (clock, outcome log).
    `coin_lt m n2 d` is the float64 test r.Float64() < dropRatio for the coin m/2^53; coin_sound is
    its only assumed property (a double below fl(r) is below r). *)
-From God Require Import Base.Prelude C09.RW C09.Spec C09.Integ C01.GenEnv C01.Spec C01.Model C01.Proofs C01.Exec C01.Link.
+From God Require Import Base.Prelude C09.RW C09.Spec C09.Integ C01.Registry C01.GenEnv C01.Spec C01.Model C01.Proofs C01.Exec C01.Link.
 From GodGen Require C01_Gen.
 Local Open Scope Z_scope.
 
@@ -113,6 +113,35 @@ Print Assumptions c01_http_mark.
 Theorem c01_rpc_benign : forall c, 0 <= c <= 16 -> benign 5 c = true -> rpc_mark c = true.
 Proof. exact rpc_benign. Qed.
 Print Assumptions c01_rpc_benign.
+
+(* registry under concurrent first use (breakers.go Get: RLock-read, then Lock / re-check / create): for any
+   number of goroutines, any names and ANY interleaving of their [RLock-read] and [Lock; re-check; create]
+   steps, two goroutines that asked for the same name hold the same breaker, the one registered under the
+   name -- and it stays registered whatever happens later *)
+Theorem c01_registry_one_breaker_per_name : forall names sched t1 t2 n b1 b2,
+  let s := Registry.run true (Registry.init names) sched in
+  alookup Nat.eqb t1 (thr s) = Some (n, Done b1) ->
+  alookup Nat.eqb t2 (thr s) = Some (n, Done b2) ->
+  b1 = b2 /\ alookup Nat.eqb n (rmap s) = Some b1.
+Proof. exact one_breaker_per_name. Qed.
+Print Assumptions c01_registry_one_breaker_per_name.
+
+Theorem c01_registry_breaker_stays : forall names sched more t n b,
+  alookup Nat.eqb t (thr (Registry.run true (Registry.init names) sched)) = Some (n, Done b) ->
+  alookup Nat.eqb n (rmap (Registry.run true (Registry.run true (Registry.init names) sched) more)) = Some b.
+Proof. exact registered_stays. Qed.
+Print Assumptions c01_registry_breaker_stays.
+
+(* the re-check under the write lock is what this rests on: without it, two goroutines that both missed
+   under RLock each install their own breaker (schedule: read, read, create, create) *)
+Example c01_registry_needs_recheck :
+  let s := Registry.run false (Registry.init [7; 7]%nat) [0; 1; 0; 1]%nat in
+  alookup Nat.eqb 0%nat (thr s) = Some (7%nat, Done 0%nat) /\ alookup Nat.eqb 1%nat (thr s) = Some (7%nat, Done 1%nat).
+Proof. vm_compute. split; reflexivity. Qed.
+
+(* and every thread gets its breaker: the forced interleaving of 4 goroutines ends with one identity *)
+Example c01_registry_forced_interleaving : ndistinct (reg_ids 4) = 1%nat /\ List.length (reg_ids 4) = 5%nat.
+Proof. vm_compute. split; reflexivity. Qed.
 
 (* ---------------- non-vacuity ---------------- *)
 Example c01_rejection_happens :
